@@ -33,6 +33,7 @@ RULE = ("case = a grid cell (format in A/AP/PM/{'action'}/{'action_prob'}/{'pmf'
         "per-row answer has two elements, or the batch is square (batch size == answer width), or the actions contain 0/1; "
         "distinct = distinct canonical JSON of the case")
 ASSUMPTIONS = [
+    "a SafeLearner built around another SafeLearner unwraps the inner learner and seeds its own generator: its draws equal those of a fresh SafeLearner(learner, seed) whatever the inner wrapper's seed and earlier use (evaluators wrap whatever they are given)",
     "evaluator sub-check: SequentialCB(seed=s) is expected to seed its SafeLearner with s itself (docstring: 'seed: Determine which action is played when learners return an action PMF'), and with CobaContext.store['experiment_seed'] when s is None; with neither, draws are time-seeded and only their validity is checked",
     "PMF entries are fresh float objects (never the same object as an offered action); integer one-hot PMFs such as [1,0] are generated for un-batched calls only, where SafeLearner hands out float copies of the actions 0 and 1",
     "bare (un-hinted) answers are only used where they can be read one way: a bare sparse-dict action, a dense action of length 1 and a PMF over a single action use the documented dict hints instead",
@@ -239,13 +240,27 @@ def eq(a, b):
 def is_hint_request(exc):
     return isinstance(exc, CobaException) and ("format" in str(exc) or "hints" in str(exc))
 
-def drive(case, plan, batch_ok, seed, shape=None):
+def pre_use(inner, cell, call, times):
+    """predict `times` times through an (inner) SafeLearner with the data of one call: uses up draws of its random stream"""
+    for _ in range(times):
+        acts = [copy.deepcopy(r["actions"]) for r in call]
+        ctxs = [copy.deepcopy(r["ctx"]) for r in call]
+        if cell["shape"] == "single": inner.predict(ctxs[0], acts[0])
+        else: inner.predict(Batch.List(ctxs), Batch.List(acts))
+
+def wrapped(learner, cell, plan, wrap):
+    """what evaluators may be handed: an already wrapped, possibly already used SafeLearner"""
+    inner = SafeLearner(learner, wrap["inner_seed"])
+    pre_use(inner, cell, plan["calls"][0], wrap["pre"])
+    return inner
+
+def drive(case, plan, batch_ok, seed, shape=None, wrap=None):
     """Run the whole call sequence through SafeLearner; returns (rows, double) with rows = per-row triples and
-    expectations, or raises Violation."""
+    expectations, or raises Violation. With `wrap` the SafeLearner under test is built around another SafeLearner."""
     cell = dict(case["cell"])
     if shape: cell["shape"] = shape
     learner = FmtLearner(cell, plan, batch_ok)
-    safe = SafeLearner(learner, seed)
+    safe = SafeLearner(wrapped(learner, cell, plan, wrap) if wrap else learner, seed)
     out = []
     for ci, call in enumerate(plan["calls"]):
         acts = [copy.deepcopy(r["actions"]) for r in call]
@@ -365,6 +380,11 @@ def run_seeds(case):
     i1, i1b, i2 = idx(r1), idx(r1b), idx(r2)
     require(i1 == i1b, "equal seeds, different draws", cell=cell, seed=s1, first=i1, second=i1b)
     require(i1 != i2, "two different seeds produced the same 40+ uniform draws (the seed is not used)", cell=cell, seeds=(s1, s2), draws=i1)
+    if case.get("wrap"):
+        rw, lw = drive(full, plan, batch_ok, s1, wrap=case["wrap"])
+        check_rows(full, rw, lw)
+        require(idx(rw) == i1, "SafeLearner(SafeLearner(learner, s_inner), s) did not draw what a fresh SafeLearner(learner, s) draws (the outer seed is ignored or the stream is shared with the inner wrapper)",
+                cell=cell, seed=s1, wrap=case["wrap"], fresh=i1, wrapped=idx(rw))
     per_call = [tuple(i1[c * b:(c + 1) * b]) for c in range(ncalls)]
     require(len(set(per_call)) > 1, "every call drew the same actions from a uniform PMF (the random stream is restarted per call)", cell=cell, seed=s1, draws=per_call[:6])
 
@@ -408,6 +428,7 @@ def run_evaluator(case):
         CobaContext.store.pop("experiment_seed", None)
         if exp_seed is not None: CobaContext.store["experiment_seed"] = exp_seed
         learner = FmtLearner(cell, plan, batch_ok)
+        if case.get("wrap"): learner = wrapped(learner, cell, plan, case["wrap"])
         out = list(SequentialCB(record=["action", "probability"], learn="on", eval="on", seed=s).evaluate(PlanEnv(rows, b), learner))
         require(len(out) == len(rows), "expected one row per interaction", rows=len(out), interactions=len(rows), cell=cell)
         for r, o in zip(rows, out):
@@ -449,10 +470,13 @@ def evaluator_cases(draw, tier):
     e1, e2 = draw(exps), draw(exps)
     if seed is not None and e1 == e2:
         e2 = 5 if e1 is None else e1 + 1          # different experiment seeds (or one absent) behind the same explicit seed
-    return {"cell": cell, "ints": draw(st.lists(st.integers(0, 65535), min_size=8, max_size=8)), "seed": seed, "exp1": e1, "exp2": e2}
+    case = {"cell": cell, "ints": draw(st.lists(st.integers(0, 65535), min_size=8, max_size=8)), "seed": seed, "exp1": e1, "exp2": e2}
+    if draw(st.booleans()):
+        case["wrap"] = {"inner_seed": draw(st.integers(0, 1000)), "pre": draw(st.integers(0, 3))}
+    return case
 
 def ev_classes(case):
-    return [f"seed={case['seed']!r}", f"shape={case['cell']['shape']}",
+    return [f"seed={case['seed']!r}", f"shape={case['cell']['shape']}", "learner already wrapped" if case.get("wrap") else "plain learner",
             "experiment_seed:" + ("both" if case["exp1"] is not None and case["exp2"] is not None else "one absent" if (case["exp1"] is None) != (case["exp2"] is None) else "absent")]
 
 # ----------------------------------------------------------------------------------------- generators
@@ -499,7 +523,10 @@ def seed_cases(draw, tier):
     s1 = draw(st.sampled_from([0, 0.0])) if draw(st.integers(0, 4)) == 0 else draw(st.integers(0, 1000))
     s2 = draw(st.integers(0, 999))
     if s2 >= s1: s2 += 1       # numerically different from s1 (0 and 0.0 are the same seed)
-    return {"cell": cell, "ints": draw(st.lists(st.integers(0, 65535), min_size=4, max_size=4)), "seed1": s1, "seed2": s2}
+    case = {"cell": cell, "ints": draw(st.lists(st.integers(0, 65535), min_size=4, max_size=4)), "seed1": s1, "seed2": s2}
+    if draw(st.booleans()):
+        case["wrap"] = {"inner_seed": draw(st.integers(0, 1000)), "pre": draw(st.integers(0, 3))}
+    return case
 
 # ----------------------------------------------------------------------------------------- evidence
 def answer_width(cell):
@@ -521,6 +548,7 @@ def classes(case):
     if cell["shape"] in ("row", "col") and cell["b"] == answer_width(cell): out.append("square:b==answer_width")
     if forced_hint(cell["fmt"], cell["atype"], cell["n"], []) != cell["fmt"]: out.append("forced-hint")
     if cell.get("ipmf"): out.append("integer-onehot-pmf")
+    if case.get("wrap"): out.append("wrapped-twice")
     return out
 
 def view(case):
@@ -540,8 +568,8 @@ SUBCHECKS = [
     Sub(name="sampled", run=run_case, strategy=sampled, nontrivial=nontrivial, classes=classes, quick=6000, thorough=150000, quick_shards=3, sample_view=view,
         what="same oracle, cell and all values (contexts, action values, choices, probabilities, PMFs, kwargs payloads, seed, 1-6 calls) drawn by Hypothesis, square batches over-sampled"),
     Sub(name="seeds", run=run_seeds, strategy=seed_cases, nontrivial=lambda c: True, classes=classes, quick=600, thorough=20000, quick_shards=1, sample_view=view,
-        what="40+ uniform PMF draws per case in every call shape: equal seeds (0 and 0.0 included) repeat the run, different seeds differ somewhere, the draws are not the same in every call"),
+        what="40+ uniform PMF draws per case in every call shape: equal seeds (0 and 0.0 included) repeat the run, different seeds differ somewhere, the draws are not the same in every call; half of the cases also build the SafeLearner around an inner, pre-used SafeLearner with another seed and expect the same draws"),
     Sub(name="evaluator", run=run_evaluator, strategy=evaluator_cases, nontrivial=lambda c: c["seed"] is not None or c["exp1"] is not None, classes=ev_classes,
         quick=500, thorough=10000, quick_shards=1, sample_view=view,
-        what="a PMF-answering double evaluated through SequentialCB(seed=s) over 24 simulated interactions (un-batched or Batch(1..4), every call shape), s in {0, 0.0, 1, 2, 7, 1000, None} with CobaContext.store['experiment_seed'] set to generated values or absent: equal explicit seeds give equal action rows whatever the experiment seed, the rows equal the draws of SafeLearner(double, s) for the same calls, with seed=None the experiment seed decides"),
+        what="a PMF-answering double evaluated through SequentialCB(seed=s) over 24 simulated interactions (un-batched or Batch(1..4), every call shape), s in {0, 0.0, 1, 2, 7, 1000, None} with CobaContext.store['experiment_seed'] set to generated values or absent: equal explicit seeds give equal action rows whatever the experiment seed, the rows equal the draws of SafeLearner(double, s) for the same calls, with seed=None the experiment seed decides; half of the cases hand SequentialCB an already wrapped, pre-used SafeLearner"),
 ]
